@@ -1,4 +1,5 @@
-(* Lemmas_E2Eb.v — an unsolicited READ event, end to end: on the scripted always-ready environment of
+(* Lemmas_E2Eb.v — two more composed end-to-end theorems on the scripted always-ready environment.
+   PART I — an unsolicited READ event, end to end: on the scripted always-ready environment of
    Script.v (no mutex, command machine idle, no input pending) the application triggers a READ event
    for a command whose variables are all read-write without callbacks; repeated cat_service calls emit
    exactly one unit  newline name=text1,text2,... newline  (no result code) and leave both machines idle.
@@ -6,10 +7,11 @@
    command-machine half is a refused read in CS_IDLE, calling no handler, accepted output out;
    (B) single-call lemmas of the event machine; (C) the flush engine of the event machine as usteps
    (after Lemmas_C11); (D) the READ formatting loop on the event machine's buffer (Lemmas_C07e redone for
-   UNSOL on top of the machine-generic lemmas of Lemmas_C19); (E) trigger, pop, the composed theorem. *)
+   UNSOL on top of the machine-generic lemmas of Lemmas_C19); (E) trigger, pop, the composed theorem.
+   PART II — the command list, end to end (see the comment at the head of that part). *)
 From Coq Require Import List NArith ZArith Bool Arith Lia.
-From CatV Require Import Bytes Defs Codec Spec Fsm Script ResolveDefs SchedDefs GlueDefs TextDefs.
-From CatV Require Lemmas_C02e Lemmas_C07 Lemmas_C07e Lemmas_C11 Lemmas_C13 Lemmas_C19 Lemmas_E2E.
+From CatV Require Import Bytes Defs Codec Spec Fsm Script ResolveDefs SchedDefs GlueDefs TextDefs CollectDefs.
+From CatV Require Lemmas_C02 Lemmas_C02e Lemmas_C07 Lemmas_C07e Lemmas_C08 Lemmas_C11 Lemmas_C13 Lemmas_C19 Lemmas_E2E.
 Import ListNotations.
 Local Open Scope nat_scope.
 
@@ -20,6 +22,7 @@ Local Notation wtr := (Fsm.tr sio smu shs).
 Local Notation idle := Lemmas_C02e.idle.
 Local Notation flush_step_u := Lemmas_C11.flush_step_u.
 Local Notation run_flush_u := Lemmas_C11.run_flush_u.
+Local Notation run_flush_c := Lemmas_C11.run_flush_c.
 Local Notation calls_of_app := Lemmas_E2E.calls_of_app.
 Local Notation output_of_app := Lemmas_E2E.output_of_app.
 Local Notation obyte := Lemmas_E2E.obyte.
@@ -604,3 +607,699 @@ Definition go (calls : nat) :=
   let (w1, r) := do_op D1 sio smu shs s_read s_write s_lock s_unlock s_call (mkw sA [] [] []) (OTrigger 0 T_READ) in
   (r, obs (nsvc D1 calls w1)).
 End E2Eb_examples.
+
+(* ====================================================================================== *)
+(* PART II — the command list, end to end: on the scripted always-ready environment of Script.v
+   (event machine idle with an empty queue, no mutex) a line  AT<name> LF  whose run handler answers
+   RC_PRINT_CMD_LIST_OK makes the machine print the specification's list, then OK, and return to idle.
+   Structure: (1) the relation L_R = "equal up to k_position" and the list printer's insensitivity to it;
+   (2) frame and shape of one printer call; (3) a raw line as service calls (after Lemmas_C11);
+   (4) the iteration TextDefs.list_run replayed as service calls (relation osteps of Lemmas_E2E);
+   (5) the name lookup keeps the disable flags; (6) the handler call; (7) the composed line. *)
+
+(* ================= 1. equal up to the cursor ================= *)
+Definition L_R (a b : state) : Prop := setk_position 0 a = setk_position 0 b.
+
+Lemma L_R_refl : forall a, L_R a a.
+Proof. reflexivity. Qed.
+Lemma L_R_sym : forall a b, L_R a b -> L_R b a.
+Proof. intros a b H. unfold L_R in *. congruence. Qed.
+Lemma L_R_trans : forall a b c, L_R a b -> L_R b c -> L_R a c.
+Proof. intros a b c H1 H2. unfold L_R in *. congruence. Qed.
+
+Lemma L_R_f : forall (A : Type) (f : state -> A), (forall s, f (setk_position 0 s) = f s) ->
+  forall a b, L_R a b -> f a = f b.
+Proof. intros A f Hf a b H. rewrite <- (Hf a), <- (Hf b). unfold L_R in H. rewrite H. reflexivity. Qed.
+
+Lemma L_R_setpos : forall p s, L_R (setk_position p s) s.
+Proof. reflexivity. Qed.
+
+Lemma L_R_setk_state : forall v a b, L_R a b -> L_R (setk_state v a) (setk_state v b).
+Proof.
+  intros v a b H. unfold L_R in *.
+  change (setk_state v (setk_position 0 a) = setk_state v (setk_position 0 b)). rewrite H. reflexivity.
+Qed.
+
+(* everything but the cursor *)
+Record L_same (a b : state) : Prop := mkLsame {
+  ls_u : u a = u b; ls_mem : mem a = mem b; ls_cbuf : cbuf a = cbuf b; ls_fault : fault a = fault b;
+  ls_state : k_state (k a) = k_state (k b); ls_wafter : k_wafter (k a) = k_wafter (k b);
+  ls_wbuf : k_wbuf (k a) = k_wbuf (k b); ls_wstate : k_wstate (k a) = k_wstate (k b);
+  ls_cr : k_cr (k a) = k_cr (k b); ls_hold : k_hold (k a) = k_hold (k b) }.
+
+Lemma L_R_same : forall a b, L_R a b -> L_same a b.
+Proof.
+  intros a b H. constructor.
+  - exact (L_R_f _ u (fun _ => eq_refl) a b H).
+  - exact (L_R_f _ mem (fun _ => eq_refl) a b H).
+  - exact (L_R_f _ cbuf (fun _ => eq_refl) a b H).
+  - exact (L_R_f _ fault (fun _ => eq_refl) a b H).
+  - exact (L_R_f _ (fun x => k_state (k x)) (fun _ => eq_refl) a b H).
+  - exact (L_R_f _ (fun x => k_wafter (k x)) (fun _ => eq_refl) a b H).
+  - exact (L_R_f _ (fun x => k_wbuf (k x)) (fun _ => eq_refl) a b H).
+  - exact (L_R_f _ (fun x => k_wstate (k x)) (fun _ => eq_refl) a b H).
+  - exact (L_R_f _ (fun x => k_cr (k x)) (fun _ => eq_refl) a b H).
+  - exact (L_R_f _ (fun x => k_hold (k x)) (fun _ => eq_refl) a b H).
+Qed.
+
+Lemma L_text_in0 : forall l : list N, length (text_of l) < length l -> In 0%N l.
+Proof.
+  induction l as [|c r IH]; intros H; [cbn in H; lia|].
+  cbn [text_of] in H. destruct (c =? 0)%N eqn:E.
+  - apply N.eqb_eq in E. left. exact E.
+  - right. apply IH. cbn [length] in H. lia.
+Qed.
+
+Lemma L_strncpy_len : forall m t, length (strncpy_buf m t) = m.
+Proof. intros m t. unfold strncpy_buf. rewrite firstn_length, app_length, repeat_length. lia. Qed.
+
+Section E2Ec.
+Variable D : desc.
+Hypothesis Hmx : d_mutex D = false.
+Local Notation n := (ncmds D).
+Local Notation cmdsvc := (cmd_service D sio smu shs s_read s_write s_lock s_unlock s_call).
+Local Notation steps := (Lemmas_C02e.steps D).
+Local Notation osteps := (Lemmas_E2E.osteps D).
+Local Notation pcl := (print_cmd_list D).
+
+(* the list printer does not look at the cursor it inherits *)
+Lemma L_pcl_pos : forall s, setk_position 0 (pcl s) = setk_position 0 (pcl (setk_position 0 s)).
+Proof.
+  intros s. unfold print_cmd_list. cbv zeta.
+  change (k_index (k (setk_position 0 s))) with (k_index (k s)).
+  destruct (cmd_by_index (d_groups D) (k_index (k s))) as [c|]; [|reflexivity].
+  change (k_type (k (setk_cmd (Some (k_index (k s))) (setk_position 0 s)))) with (k_type (k s)).
+  change (k_type (k (setk_cmd (Some (k_index (k s))) s))) with (k_type (k s)).
+  change (is_command_disable D (setk_cmd (Some (k_index (k s))) (setk_position 0 s)))
+    with (is_command_disable D (setk_cmd (Some (k_index (k s))) s)).
+  destruct (k_type (k s)).
+  - destruct (is_command_disable D (setk_cmd (Some (k_index (k s))) s) (k_index (k s))); [|reflexivity].
+    unfold cmd_list_next_cmd. cbv zeta.
+    change (k_index (k (setk_cmd (Some (k_index (k s))) (setk_position 0 s)))) with (k_index (k s)).
+    change (k_index (k (setk_cmd (Some (k_index (k s))) s))) with (k_index (k s)).
+    destruct (n <=? S (k_index (k s))); reflexivity.
+  - unfold print_cmd_form. destruct (c_hrun c); reflexivity.
+  - unfold print_cmd_form. destruct (c_hread c || vars_access_possible c RO); reflexivity.
+  - unfold print_cmd_form. destruct (c_hwrite c || vars_access_possible c WO); reflexivity.
+  - unfold print_cmd_form.
+    destruct (c_htest c || match c_vars c with [] => false | _ :: _ => true end); reflexivity.
+  - unfold cmd_list_next_cmd. cbv zeta.
+    change (k_index (k (setk_cmd (Some (k_index (k s))) (setk_position 0 s)))) with (k_index (k s)).
+    change (k_index (k (setk_cmd (Some (k_index (k s))) s))) with (k_index (k s)).
+    destruct (n <=? S (k_index (k s))); reflexivity.
+Qed.
+
+Lemma L_R_pcl : forall a b, L_R a b -> L_R (pcl a) (pcl b).
+Proof.
+  intros a b H. unfold L_R in *. rewrite (L_pcl_pos a), (L_pcl_pos b), H. reflexivity.
+Qed.
+
+(* ================= 2. frame and shape of one printer call ================= *)
+(* what the printer never changes *)
+Definition L_fr (s s' : state) : Prop :=
+  u s' = u s /\ mem s' = mem s /\ k_cr (k s') = k_cr (k s) /\ k_hold (k s') = k_hold (k s) /\
+  length (cbuf s') = length (cbuf s).
+
+Lemma L_fr_refl : forall s, L_fr s s.
+Proof. intros s. unfold L_fr. repeat split; reflexivity. Qed.
+
+Lemma L_fr_trans : forall a b c, L_fr a b -> L_fr b c -> L_fr a c.
+Proof.
+  intros a b c (A1 & A2 & A3 & A4 & A5) (B1 & B2 & B3 & B4 & B5).
+  unfold L_fr. rewrite B1, B2, B3, B4, B5. repeat split; assumption.
+Qed.
+
+(* a started flush is either a raw line of the list or a result code with a fresh cursor *)
+Definition L_G (s : state) : Prop :=
+  k_state (k s) = CS_FLUSH_WAIT ->
+  k_position (k s) = 0 /\
+  ((k_wafter (k s) = CS_PRINT_CMD /\ k_wbuf (k s) = WB_MAIN /\ k_wstate (k s) = WS_AFTER) \/
+   (k_wafter (k s) = CS_AFTER_RESET /\ k_wstate (k s) = WS_BEFORE /\ k_wbuf (k s) = WB_NL (k_cr (k s)))).
+
+Lemma L_G_not : forall s, k_state (k s) <> CS_FLUSH_WAIT -> L_G s.
+Proof. intros s H E. exfalso. exact (H E). Qed.
+
+Lemma L_fr_put_cur : forall c s, length (cu_buf c) = length (cbuf s) -> L_fr s (put_cur ATCMD c s).
+Proof. intros c s H. unfold put_cur. destruct (cu_fault c); unfold L_fr; repeat split; exact H. Qed.
+
+Lemma L_fr_print_string : forall s t, L_fr s (fst (print_string ATCMD s t)).
+Proof.
+  intros s t. unfold print_string.
+  pose proof (Lemmas_C08.print_nstring_len (get_cur ATCMD s) t) as H.
+  destruct (print_nstring (get_cur ATCMD s) t) as [c ok]. cbn [fst] in *. apply L_fr_put_cur. exact H.
+Qed.
+
+Lemma L_print_pieces_len : forall ps c, length (cu_buf (fst (print_pieces c ps))) = length (cu_buf c).
+Proof.
+  induction ps as [|p r IH]; intros c; [reflexivity|]. cbn [print_pieces].
+  pose proof (Lemmas_C08.print_nstring_len c p) as H.
+  destruct (print_nstring c p) as [c1 ok]. cbn [fst] in H. destruct ok; [rewrite IH|]; exact H.
+Qed.
+
+Lemma L_fr_print_strings : forall s ts, L_fr s (fst (print_strings ATCMD s ts)).
+Proof.
+  intros s ts. unfold print_strings.
+  pose proof (L_print_pieces_len ts (get_cur ATCMD s)) as H.
+  destruct (print_pieces (get_cur ATCMD s) ts) as [c ok]. cbn [fst] in *. apply L_fr_put_cur. exact H.
+Qed.
+
+Lemma L_fr_full_name : forall s c sfx, L_fr s (fst (print_current_cmd_full_name s c sfx)).
+Proof.
+  intros s c sfx. unfold print_current_cmd_full_name.
+  destruct (k_length (k s) =? 0).
+  - pose proof (L_fr_print_string s (nl_chars s)) as H1.
+    destruct (print_string ATCMD s (nl_chars s)) as [s' ok]. cbn [fst] in H1.
+    destruct ok; cbn [negb fst]; [|exact H1].
+    eapply L_fr_trans; [exact H1|]. eapply L_fr_trans; [|apply L_fr_print_strings].
+    unfold L_fr. repeat split; reflexivity.
+  - cbn [negb]. apply L_fr_print_strings.
+Qed.
+
+Lemma L_ack_ok : forall s, L_fr s (ack_ok s) /\ L_G (ack_ok s).
+Proof.
+  intros s. split.
+  - unfold L_fr. repeat split; try reflexivity.
+    change (length (strncpy_buf (asz s) txt_OK) = length (cbuf s)). apply L_strncpy_len.
+  - intros _. split; [reflexivity|]. right. repeat split; reflexivity.
+Qed.
+
+Lemma L_ack_error : forall s, L_fr s (ack_error s) /\ L_G (ack_error s).
+Proof.
+  intros s. split.
+  - unfold L_fr. repeat split; try reflexivity.
+    change (length (strncpy_buf (asz s) txt_ERROR) = length (cbuf s)). apply L_strncpy_len.
+  - intros _. split; [reflexivity|]. right. repeat split; reflexivity.
+Qed.
+
+Lemma L_next_cmd : forall s, k_state (k s) = CS_PRINT_CMD ->
+  let r := (let (s1, more) := cmd_list_next_cmd D s in if more then s1 else ack_ok s1) in
+  L_fr s r /\ L_G r.
+Proof.
+  intros s Hs. cbv zeta. unfold cmd_list_next_cmd. cbv zeta.
+  destruct (n <=? S (k_index (k s))).
+  - destruct (L_ack_ok (setk_index (S (k_index (k s))) s)) as [A B]. split; [|exact B].
+    eapply L_fr_trans; [|exact A]. unfold L_fr. repeat split; reflexivity.
+  - split; [unfold L_fr; repeat split; reflexivity|]. apply L_G_not. discriminate.
+Qed.
+
+Lemma L_form : forall s c av sfx next, k_state (k s) = CS_PRINT_CMD ->
+  L_fr s (print_cmd_form s c av sfx next) /\ L_G (print_cmd_form s c av sfx next).
+Proof.
+  intros s c av sfx next Hs. unfold print_cmd_form. destruct av.
+  - pose proof (L_fr_full_name (setk_position 0 s) c sfx) as H1.
+    destruct (print_current_cmd_full_name (setk_position 0 s) c sfx) as [s2 ok]. cbn [fst] in H1.
+    assert (H0 : L_fr s s2) by (eapply L_fr_trans; [|exact H1]; unfold L_fr; repeat split; reflexivity).
+    destruct ok; cbn [negb].
+    + split.
+      * eapply L_fr_trans; [exact H0|]. unfold L_fr. repeat split; reflexivity.
+      * intros _. split; [reflexivity|]. left. repeat split; reflexivity.
+    + destruct (L_ack_error s2) as [A B]. split; [|exact B]. eapply L_fr_trans; eassumption.
+  - split; [unfold L_fr; repeat split; reflexivity|]. apply L_G_not.
+    change (k_state (k (setk_type next s))) with (k_state (k s)). rewrite Hs. discriminate.
+Qed.
+
+Lemma L_pcl_frame : forall s, k_state (k s) = CS_PRINT_CMD -> L_fr s (pcl s) /\ L_G (pcl s).
+Proof.
+  intros s Hs. unfold print_cmd_list. cbv zeta.
+  destruct (cmd_by_index (d_groups D) (k_index (k s))) as [c|].
+  2:{ split; [unfold L_fr; repeat split; reflexivity|]. apply L_G_not.
+      change (k_state (k (set_fault_flag s))) with (k_state (k s)). rewrite Hs. discriminate. }
+  set (s1 := setk_cmd (Some (k_index (k s))) s).
+  assert (Hs1 : k_state (k s1) = CS_PRINT_CMD) by exact Hs.
+  assert (F1 : L_fr s s1) by (unfold L_fr; repeat split; reflexivity).
+  assert (K : forall r, L_fr s1 r /\ L_G r -> L_fr s r /\ L_G r).
+  { intros r [A B]. split; [exact (L_fr_trans _ _ _ F1 A) | exact B]. }
+  destruct (k_type (k s1)).
+  - destruct (is_command_disable D s1 (k_index (k s))).
+    + apply K. exact (L_next_cmd s1 Hs1).
+    + apply K. split; [unfold L_fr; repeat split; reflexivity|]. apply L_G_not.
+      match goal with |- k_state (k (setk_type ?t s1)) <> _ =>
+        change (k_state (k (setk_type t s1))) with (k_state (k s1)) end.
+      rewrite Hs1. discriminate.
+  - apply K, L_form, Hs1.
+  - apply K, L_form, Hs1.
+  - apply K, L_form, Hs1.
+  - apply K, L_form, Hs1.
+  - apply K. exact (L_next_cmd s1 Hs1).
+Qed.
+
+(* ================= 3. a raw line of the list as service calls ================= *)
+Lemma L_osteps_0 : forall s q, osteps 0 s q s q [].
+Proof. intros s q h t. exists []. repeat split; reflexivity. Qed.
+
+Lemma L_raw_unit : forall s q txt, idle s -> k_state (k s) = CS_FLUSH_WAIT -> k_position (k s) = 0 ->
+  k_wbuf (k s) = WB_MAIN -> k_wstate (k s) = WS_AFTER -> k_wafter (k s) = CS_PRINT_CMD ->
+  In 0%N (cbuf s) -> text_of (cbuf s) = txt ->
+  exists s3, osteps (2 + length txt) s q s3 q txt /\ L_R s3 (setk_state CS_PRINT_CMD s).
+Proof.
+  intros s q txt Hi Hs Hp Hb Hw Ha H0 HT.
+  assert (H1 : osteps 1 s q (setk_state CS_FLUSH s) q []).
+  { apply (Lemmas_E2E.ostep_pure D Hmx s q (setk_state CS_FLUSH) Hi). intros h t. unfold cmd_service.
+    cbn [Fsm.st mkw]. rewrite Hs. unfold busy, upd_st, process_io_write_wait. cbn [Fsm.st mkw].
+    destruct Hi as [U _]. rewrite U. reflexivity. }
+  set (s0 := setk_state CS_FLUSH s).
+  assert (Hi0 : idle s0) by exact Hi.
+  assert (T0 : text_of (Lemmas_C11.wb_text (k_wbuf (k s0)) (cbuf s0)) = txt).
+  { change (k_wbuf (k s0)) with (k_wbuf (k s)). rewrite Hb. exact HT. }
+  assert (I0 : In 0%N (Lemmas_C11.wb_text (k_wbuf (k s0)) (cbuf s0))).
+  { change (k_wbuf (k s0)) with (k_wbuf (k s)). rewrite Hb. exact H0. }
+  pose proof (Lemmas_C11.phase_c_after s0 txt Hp Hw I0 T0) as P3.
+  change (k_wafter (k s0)) with (k_wafter (k s)) in P3. rewrite Ha in P3. cbv zeta in P3.
+  cbn [cstate_beq] in P3.
+  pose proof (Lemmas_E2E.flush_osteps D Hmx (S (length txt)) s0 q Hi0) as F.
+  rewrite P3 in F. cbn [fst snd] in F.
+  eexists. split.
+  - change (2 + length txt) with (1 + S (length txt)).
+    eapply Lemmas_E2E.osteps_cast; [eapply Lemmas_E2E.osteps_trans; [exact H1|] | reflexivity | reflexivity].
+    apply F. intros j Hj.
+    rewrite Lemmas_C11.run_flush_c_text_state by (rewrite (Lemmas_C11.len_phase_rest0 s0 txt Hp T0); lia).
+    reflexivity.
+  - reflexivity.
+Qed.
+
+(* ================= 4. the iteration of the list printer as service calls ================= *)
+Lemma L_list_run_app : forall fuel s acc, exists new, fst (list_run D fuel s acc) = acc ++ new.
+Proof.
+  induction fuel as [|f IH]; intros s acc; [exists []; rewrite app_nil_r; reflexivity|].
+  rewrite Lemmas_C19.list_run_S. destruct (cstate_beq (k_state (k s)) CS_PRINT_CMD).
+  2:{ exists []. rewrite app_nil_r. reflexivity. }
+  cbv zeta.
+  destruct (cstate_beq (k_state (k (pcl s))) CS_FLUSH_WAIT && cstate_beq (k_wafter (k (pcl s))) CS_PRINT_CMD).
+  - destruct (IH (setk_state CS_PRINT_CMD (pcl s)) (acc ++ [text_of (cbuf (pcl s))])) as [new E].
+    exists ([text_of (cbuf (pcl s))] ++ new). rewrite E, <- app_assoc. reflexivity.
+  - apply IH.
+Qed.
+
+Lemma L_pcl_step : forall s q, idle s -> k_state (k s) = CS_PRINT_CMD -> osteps 1 s q (pcl s) q [].
+Proof.
+  intros s q Hi Hs. apply (Lemmas_E2E.ostep_pure D Hmx s q pcl Hi). intros h t. unfold cmd_service.
+  cbn [Fsm.st mkw]. rewrite Hs. reflexivity.
+Qed.
+
+Lemma L_list_osteps : forall bsz q fuel a b acc out af new,
+  L_R a b -> idle b -> length (cbuf b) = bsz -> L_G b ->
+  list_run D fuel a acc = (out, af) -> k_state (k af) = CS_FLUSH_WAIT ->
+  out = acc ++ new -> forallb (fun l => length l <? bsz) new = true ->
+  exists calls bf, osteps calls b q bf q (concat new) /\ L_R af bf /\ L_fr b bf /\ L_G bf.
+Proof.
+  intros bsz q. induction fuel as [|f IH]; intros a b acc out af new HR Hi Hlen HG Hrun Hend Hout Hfit.
+  - cbn [list_run] in Hrun. injection Hrun as <- <-.
+    assert (new = []) by (apply (app_inv_head acc); rewrite app_nil_r; symmetry; exact Hout). subst new.
+    exists 0, b. split; [apply L_osteps_0|]. split; [exact HR|]. split; [apply L_fr_refl | exact HG].
+  - rewrite Lemmas_C19.list_run_S in Hrun.
+    destruct (cstate_beq (k_state (k a)) CS_PRINT_CMD) eqn:Es.
+    2:{ injection Hrun as <- <-.
+        assert (new = []) by (apply (app_inv_head acc); rewrite app_nil_r; symmetry; exact Hout). subst new.
+        exists 0, b. split; [apply L_osteps_0|]. split; [exact HR|]. split; [apply L_fr_refl | exact HG]. }
+    apply internal_cstate_dec_bl in Es.
+    pose proof (L_R_same a b HR) as Sab.
+    assert (Hsb : k_state (k b) = CS_PRINT_CMD) by (rewrite <- (ls_state _ _ Sab); exact Es).
+    pose proof (L_R_pcl a b HR) as HR1.
+    pose proof (L_pcl_step b q Hi Hsb) as O1.
+    destruct (L_pcl_frame b Hsb) as [F1 G1].
+    pose proof (L_R_same _ _ HR1) as S1.
+    assert (Hi1 : idle (pcl b)) by (apply (Lemmas_C02e.idle_of_u b); [apply F1 | exact Hi]).
+    assert (Hlen1 : length (cbuf (pcl b)) = bsz) by (destruct F1 as (_ & _ & _ & _ & E); rewrite E; exact Hlen).
+    cbv zeta in Hrun.
+    destruct (cstate_beq (k_state (k (pcl a))) CS_FLUSH_WAIT && cstate_beq (k_wafter (k (pcl a))) CS_PRINT_CMD) eqn:Ec.
+    + apply andb_true_iff in Ec. destruct Ec as [Ec1 Ec2].
+      apply internal_cstate_dec_bl in Ec1. apply internal_cstate_dec_bl in Ec2.
+      rewrite (ls_state _ _ S1) in Ec1. rewrite (ls_wafter _ _ S1) in Ec2.
+      rewrite (ls_cbuf _ _ S1) in Hrun.
+      set (l := text_of (cbuf (pcl b))) in *.
+      destruct (L_list_run_app f (setk_state CS_PRINT_CMD (pcl a)) (acc ++ [l])) as [new' En].
+      rewrite Hrun in En. cbn [fst] in En.
+      assert (new = l :: new').
+      { apply (app_inv_head acc). rewrite <- Hout, En, <- app_assoc. reflexivity. }
+      subst new. cbn [forallb] in Hfit. apply andb_true_iff in Hfit. destruct Hfit as [Hl Hfit].
+      apply Nat.ltb_lt in Hl.
+      destruct (G1 Ec1) as (Hp & [(_ & Hb & Hw) | (Hx & _)]); [|rewrite Hx in Ec2; discriminate].
+      assert (H0 : In 0%N (cbuf (pcl b))) by (apply L_text_in0; fold l; rewrite Hlen1; exact Hl).
+      destruct (L_raw_unit (pcl b) q l Hi1 Ec1 Hp Hb Hw Ec2 H0 eq_refl) as (b3 & O2 & R3).
+      pose proof (L_R_same _ _ R3) as S3.
+      assert (HR3 : L_R (setk_state CS_PRINT_CMD (pcl a)) b3).
+      { eapply L_R_trans; [apply L_R_setk_state; exact HR1 | apply L_R_sym; exact R3]. }
+      assert (F3 : L_fr (pcl b) b3).
+      { unfold L_fr. rewrite (ls_u _ _ S3), (ls_mem _ _ S3), (ls_cr _ _ S3), (ls_hold _ _ S3), (ls_cbuf _ _ S3).
+        repeat split; reflexivity. }
+      destruct (IH (setk_state CS_PRINT_CMD (pcl a)) b3 (acc ++ [l]) out af new' HR3) as (c3 & bf & O3 & Rf & Ff & Gf).
+      * apply (Lemmas_C02e.idle_of_u (pcl b)); [apply F3 | exact Hi1].
+      * destruct F3 as (_ & _ & _ & _ & E). rewrite E. exact Hlen1.
+      * apply L_G_not. rewrite (ls_state _ _ S3). discriminate.
+      * exact Hrun.
+      * exact Hend.
+      * exact En.
+      * exact Hfit.
+      * exists (1 + ((2 + length l) + c3)), bf. split; [|split; [exact Rf|split; [|exact Gf]]].
+        -- cbn [concat].
+           eapply Lemmas_E2E.osteps_cast;
+             [exact (Lemmas_E2E.osteps_trans D _ _ _ _ _ _ _ _ _ _ O1
+                       (Lemmas_E2E.osteps_trans D _ _ _ _ _ _ _ _ _ _ O2 O3)) | reflexivity | reflexivity].
+        -- exact (L_fr_trans _ _ _ F1 (L_fr_trans _ _ _ F3 Ff)).
+    + destruct (IH (pcl a) (pcl b) acc out af new HR1 Hi1 Hlen1 G1 Hrun Hend Hout Hfit) as (c3 & bf & O3 & Rf & Ff & Gf).
+      exists (1 + c3), bf. split; [|split; [exact Rf|split; [|exact Gf]]].
+      * exact (Lemmas_E2E.osteps_trans D _ _ _ _ _ _ _ _ _ _ O1 O3).
+      * exact (L_fr_trans _ _ _ F1 Ff).
+Qed.
+
+(* ================= 5. the name lookup keeps the disable flags ================= *)
+Definition L_dis (s : state) : list bool * list bool := (dis_cmd s, dis_grp s).
+
+Lemma L_dis_update : forall s, L_dis (update_command D s) = L_dis s.
+Proof.
+  intros s. rewrite Lemmas_C02.update_command_unf.
+  destruct (cmd_by_index (d_groups D) (k_index (k s))) as [c|]; [|reflexivity].
+  destruct (get_cmd_state D s (k_index (k s))) as [cs|]; [|reflexivity].
+  unfold Lemmas_C02.upd_fin, Lemmas_C02.upd_s1, set_cmd_state, prepare_search_command.
+  Lemmas_E2E.destr_all; reflexivity.
+Qed.
+
+Lemma L_dis_search : forall s, L_dis (search_command D s) = L_dis s.
+Proof.
+  intros s. unfold search_command.
+  destruct (get_cmd_state D s (k_index (k s))) as [cs|]; [|reflexivity].
+  cbv zeta. Lemmas_C11.scbn. Lemmas_E2E.destr_all; reflexivity.
+Qed.
+
+Lemma L_dis_iter_upd : forall m s, L_dis (iter m (update_command D) s) = L_dis s.
+Proof. induction m as [|m IH]; intros s; [reflexivity|]. simpl iter. rewrite IH. apply L_dis_update. Qed.
+
+Lemma L_dis_ncs : forall s ch, L_dis (name_char_step D s ch) = L_dis s.
+Proof. intros s ch. unfold name_char_step. rewrite L_dis_iter_upd. reflexivity. Qed.
+
+Lemma L_dis_fold_ncs : forall t s, L_dis (fold_left (name_char_step D) t s) = L_dis s.
+Proof. induction t as [|c t IH]; intros s; [reflexivity|]. simpl fold_left. rewrite IH. apply L_dis_ncs. Qed.
+
+Lemma L_dis_run : forall s t, L_dis (Lemmas_C02e.run D s t) = L_dis s.
+Proof. intros s t. unfold Lemmas_C02e.run. rewrite L_dis_fold_ncs. reflexivity. Qed.
+
+Lemma L_dis_search_run : forall fuel s, L_dis (search_run D fuel s) = L_dis s.
+Proof.
+  induction fuel as [|f IH]; intros s; [reflexivity|]. simpl search_run.
+  destruct (cstate_beq (k_state (k s)) CS_SEARCH_COMMAND); [|reflexivity].
+  rewrite IH. apply L_dis_search.
+Qed.
+
+Section Line.
+Variable s : state.
+Hypothesis Hn : 0 < n.
+Hypothesis HL : n <= 4 * length (cbuf s).
+Hypothesis Hf : fault s = false.
+Hypothesis Hst : k_state (k s) = CS_IDLE.
+Hypothesis Himp : k_implicit (k s) = false.
+Hypothesis Hidle : idle s.
+
+Local Notation run := (Lemmas_C02e.run D s).
+Local Notation tweak := Lemmas_C02e.tweak.
+Local Notation looked_up := (Lemmas_C02e.looked_up D s).
+Local Notation six := Lemmas_E2E.six.
+
+(* Lemmas_E2E.finish_search_ex, with the disable flags of the final state *)
+Lemma L_finish_search_ex : forall typed term ty cr g q,
+  typed <> [] -> implicit_hit D s typed = false ->
+  exists j s2, j <= n /\ steps j (tweak ty cr g (start_search (run typed) term)) q s2 q /\
+    looked_up typed term ty s2 /\
+    six s2 = (g, gS s, gR s, cr, k_hold (k s), length (cbuf s)) /\ L_dis s2 = L_dis s.
+Proof.
+  intros typed term ty cr g q Hne Hh.
+  set (r := run typed). set (X := start_search r term).
+  set (s2 := search_run D n X).
+  destruct (Lemmas_C02e.run_good D s Hn HL Hf Himp Hidle typed Hh) as [_ [_ [_ [_ [Hi [Hu Hm]]]]]].
+  fold r in Hi, Hu, Hm.
+  pose proof (Lemmas_C02.C02_resolve D (Lemmas_C02e.sT s) typed term Hn HL Hf Himp Hne Hh) as R.
+  cbv zeta in R. rewrite <- (Lemmas_C02e.run_eq D s typed Hne) in R. fold r X s2 in R. destruct R as [F R].
+  change (enabled D (Lemmas_C02e.sT s)) with (enabled D s) in R.
+  destruct (Lemmas_C02e.search_run_frame D n X) as [A [B [C E]]]. fold s2 in A, B, C, E.
+  assert (Hend : k_state (k (search_run D n (tweak ty cr g X))) <> CS_SEARCH_COMMAND).
+  { rewrite Lemmas_C02e.search_run_tweak. fold s2.
+    change (k_state (k (tweak ty cr g s2))) with (k_state (k s2)).
+    destruct (resolve typed (enabled D s) (cmds D)) as [i|].
+    - destruct R as [R _]. rewrite R. discriminate.
+    - rewrite R. destruct (term =? ch_LF)%N; discriminate. }
+  destruct (Lemmas_C02e.search_steps D Hmx n (tweak ty cr g X) q) as [j [Hj Hst']];
+    [exact Hi | reflexivity | exact Hend |].
+  exists j, (tweak ty cr g s2). split; [exact Hj|]. split.
+  { rewrite Lemmas_C02e.search_run_tweak in Hst'. exact Hst'. }
+  split; [|split].
+  - unfold Lemmas_C02e.looked_up. split; [change (mem s2 = mem s); rewrite B; exact Hm|]. split; [exact F|].
+    split; [change (u s2 = u s); rewrite A; exact Hu|].
+    destruct (resolve typed (enabled D s) (cmds D)) as [i|].
+    + destruct R as [R1 R2]. split; [exact R1|]. split; [exact R2|]. split; [reflexivity|].
+      change (k_char (k (tweak ty cr g s2))) with (k_char (k s2)). rewrite C. reflexivity.
+    + exact R.
+  - rewrite Lemmas_E2E.six_tweak.
+    assert (E6 : six s2 = six s).
+    { unfold s2. rewrite Lemmas_E2E.six_search_run. change (six X) with (six r). apply Lemmas_E2E.six_run. }
+    unfold Lemmas_E2E.six in E6. congruence.
+  - change (L_dis (tweak ty cr g s2)) with (L_dis s2). unfold s2. rewrite L_dis_search_run.
+    change (L_dis X) with (L_dis r). apply L_dis_run.
+Qed.
+
+(* Lemmas_E2E.dispatch_lf_ex, with the disable flags of the final state *)
+Lemma L_dispatch_lf_ex : forall name rest,
+  name_ok name = true -> implicit_hit D s (upper name) = false ->
+  exists calls s2, steps calls s ([ch_A; ch_T] ++ name ++ [ch_LF] ++ rest) s2 rest /\
+    looked_up (upper name) ch_LF T_RUN s2 /\
+    six s2 = (S (gL s), gS s, gR s, k_cr (k s), k_hold (k s), length (cbuf s)) /\
+    dis_cmd s2 = dis_cmd s /\ dis_grp s2 = dis_grp s.
+Proof.
+  intros name rest Hok Hh.
+  destruct (Lemmas_C02e.name_ok_split name Hok) as [Hne Hc].
+  pose proof (Lemmas_E2E.upper_ne name Hne) as Hne'.
+  destruct (Lemmas_E2E.six_run_parts D s (upper name)) as [G C].
+  destruct (L_finish_search_ex (upper name) ch_LF T_RUN (k_cr (k (run (upper name))))
+              (S (gL (run (upper name)))) rest Hne' Hh) as [j [s2 [Hj [H6 [HR [H7 H8]]]]]].
+  exists (2 + (length name * S n + (1 + j))), s2. split; [|split; [exact HR|split]].
+  - simpl app.
+    eapply Lemmas_C02e.steps_trans; [apply (Lemmas_C02e.at_steps D Hmx s Hst Hidle)|].
+    eapply Lemmas_C02e.steps_trans;
+      [apply (Lemmas_C02e.name_steps D Hmx s Hn HL Hf Himp Hidle name (ch_LF :: rest) Hc Hh)|].
+    eapply Lemmas_C02e.steps_trans;
+      [apply (Lemmas_E2E.lf_term_step D Hmx s Hn HL Hf Himp Hidle (upper name) rest Hne' Hh) | exact H6].
+  - rewrite H7, G, C. reflexivity.
+  - unfold L_dis in H8. split; congruence.
+Qed.
+
+End Line.
+
+(* ================= 6. the calls around the handler ================= *)
+(* CS_COMMAND_FOUND for a RUN request with a run handler *)
+Lemma L_found_run_step : forall s q i c, idle s -> k_state (k s) = CS_COMMAND_FOUND ->
+  k_cmd (k s) = Some i -> cmd_at D i = Some c -> k_type (k s) = T_RUN -> c_only_test c = false ->
+  c_hrun c = true -> osteps 1 s q (setk_state CS_RUN_LOOP s) q [].
+Proof.
+  intros s q i c Hi Hs Hk Hc Hty Hot Hrun.
+  assert (E : command_found D s = setk_state CS_RUN_LOOP s).
+  { unfold command_found, cmd_of, g_cmd. rewrite Hk, Hc, Hty, Hot, Hrun. reflexivity. }
+  rewrite <- E. apply (Lemmas_E2E.ostep_pure D Hmx s q (command_found D) Hi).
+  intros h t. unfold cmd_service. cbn [Fsm.st mkw]. rewrite Hs. reflexivity.
+Qed.
+
+(* the service call that runs the handler, which asks for the command list *)
+Lemma L_run_call : forall s q h h' t i r0, idle s -> k_state (k s) = CS_RUN_LOOP -> k_cmd (k s) = Some i ->
+  s_call h (HRun i) = (h', r0) -> r_code r0 = RC_PRINT_CMD_LIST_OK -> r_pokes r0 = [] -> r_calls r0 = [] ->
+  svc D (mkw s q h t) =
+  mkw (start_print_cmd_list D s) q h' (ERet OService ST_BUSY :: ECall (HRun i) RC_PRINT_CMD_LIST_OK :: t).
+Proof.
+  intros s q h h' t i r0 Hi Hs Hk Hcall Hcode Hp Hc.
+  assert (E : cmdsvc (mkw s q h t) =
+              (mkw (start_print_cmd_list D s) q h' (ECall (HRun i) RC_PRINT_CMD_LIST_OK :: t), ST_BUSY)).
+  { unfold cmd_service. cbn [Fsm.st mkw]. rewrite Hs. unfold process_run_loop. cbn [Fsm.st mkw g_cmd].
+    rewrite Hk. unfold call_h. cbn [Fsm.hs mkw]. rewrite Hcall, Hcode, Hp, Hc. reflexivity. }
+  rewrite (Lemmas_C02e.svc_busy D Hmx (mkw s q h t) _ Hi E). reflexivity.
+Qed.
+
+(* calls before the handler, the handler call, calls after it: the whole world *)
+Lemma L_compose : forall c1 c2 s q s3 q3 s4 s5 h h' i out,
+  osteps c1 s q s3 q3 [] ->
+  (forall t, svc D (mkw s3 q3 h t) =
+             mkw s4 q3 h' (ERet OService ST_BUSY :: ECall (HRun i) RC_PRINT_CMD_LIST_OK :: t)) ->
+  osteps c2 s4 q3 s5 q3 out ->
+  let w := nsvc D (c1 + (1 + c2)) (mkw s q h []) in
+  wst w = s5 /\ inq (wio w) = q3 /\ whs w = h' /\
+  calls_of (wtr w) = [(HRun i, RC_PRINT_CMD_LIST_OK)] /\ output_of (wtr w) = out.
+Proof.
+  intros c1 c2 s q s3 q3 s4 s5 h h' i out O1 Hc O2 w.
+  destruct (O1 h []) as (t1 & C1 & U1 & E1).
+  destruct (O2 h' (ERet OService ST_BUSY :: ECall (HRun i) RC_PRINT_CMD_LIST_OK :: t1 ++ []))
+    as (t2 & C2 & U2 & E2).
+  assert (Ew : w = mkw s5 q3 h' (t2 ++ [ERet OService ST_BUSY; ECall (HRun i) RC_PRINT_CMD_LIST_OK] ++ t1 ++ [])).
+  { unfold w, nsvc in *. rewrite Lemmas_C02e.iter_add, E1, Lemmas_C02e.iter_add.
+    change (iter 1 (svc D) (mkw s3 q3 h (t1 ++ []))) with (svc D (mkw s3 q3 h (t1 ++ []))).
+    rewrite Hc, E2. reflexivity. }
+  rewrite Ew. cbn [Fsm.st Fsm.io Fsm.hs Fsm.tr mkw inq].
+  split; [reflexivity|]. split; [reflexivity|]. split; [reflexivity|].
+  rewrite app_nil_r. rewrite !Lemmas_E2E.calls_of_app, !Lemmas_E2E.output_of_app, C1, C2, U1, U2.
+  split; reflexivity.
+Qed.
+
+(* ================= 7. the whole line ================= *)
+Section Lines.
+Variable s : state.
+Hypothesis Hn : 0 < n.
+Hypothesis HL : n <= 4 * length (cbuf s).
+Hypothesis H6 : 6 <= length (cbuf s).
+Hypothesis Hf : fault s = false.
+Hypothesis Hst : k_state (k s) = CS_IDLE.
+Hypothesis Hcr : k_cr (k s) = false.
+Hypothesis Himp : k_implicit (k s) = false.
+Hypothesis Hhold : k_hold (k s) = false.
+Hypothesis Hidle : idle s.
+
+Lemma L_list_line_world : forall name rest h h' i c r0,
+  name_ok name = true -> implicit_hit D s (upper name) = false ->
+  resolve (upper name) (enabled D s) (cmds D) = Some i -> nth_error (cmds D) i = Some c ->
+  c_hrun c = true -> c_only_test c = false ->
+  s_call h (HRun i) = (h', r0) -> r_code r0 = RC_PRINT_CMD_LIST_OK -> r_pokes r0 = [] -> r_calls r0 = [] ->
+  (forall c', In c' (cmds D) -> ~ In 0%N (c_name c')) ->
+  forallb (fun l => length l <? length (cbuf s)) (spec_cmd_list D (enabled D s) [ch_LF]) = true ->
+  exists calls s6, let w := nsvc D calls (mkw s ([ch_A; ch_T] ++ name ++ [ch_LF] ++ rest) h []) in
+    wst w = s6 /\ inq (wio w) = rest /\ whs w = h' /\
+    calls_of (wtr w) = [(HRun i, RC_PRINT_CMD_LIST_OK)] /\
+    output_of (wtr w) = concat (spec_cmd_list D (enabled D s) [ch_LF]) ++ [ch_LF] ++ txt_OK ++ [ch_LF] /\
+    k_state (k s6) = CS_IDLE /\ mem s6 = mem s /\ fault s6 = false /\ u s6 = u s /\
+    k_cr (k s6) = false /\ k_hold (k s6) = false /\ k_cmd (k s6) = None.
+Proof.
+  intros name rest h h' i c r0 Hok Hh Hres Hc Hrun Hot Hcall Hcode Hpk Hcl Hnames Hfit.
+  (* 1. dispatch *)
+  destruct (L_dispatch_lf_ex s Hn HL Hf Hst Himp Hidle name rest Hok Hh)
+    as (c1 & s2 & H1 & (M2 & F2 & U2 & R2) & S2 & Dc & Dg).
+  rewrite Hres in R2. destruct R2 as (A1 & A2 & A3 & A4).
+  unfold Lemmas_E2E.six in S2.
+  assert (G2 : k_cr (k s2) = false /\ k_hold (k s2) = false /\ length (cbuf s2) = length (cbuf s)).
+  { repeat split; congruence. }
+  destruct G2 as (cr2 & ho2 & len2).
+  pose proof (Lemmas_E2E.cmd_at_of_cmds D i c Hc) as Hc'.
+  assert (Hi2 : idle s2) by (apply (Lemmas_C02e.idle_of_u s); assumption).
+  (* 2. CS_COMMAND_FOUND *)
+  pose proof (L_found_run_step s2 rest i c Hi2 A1 A2 Hc' A3 Hot Hrun) as O2.
+  set (s3 := setk_state CS_RUN_LOOP s2) in *.
+  assert (Hi3 : idle s3) by exact Hi2.
+  (* 3. the handler *)
+  assert (Hsvc : forall t, svc D (mkw s3 rest h t) =
+            mkw (start_print_cmd_list D s3) rest h'
+                (ERet OService ST_BUSY :: ECall (HRun i) RC_PRINT_CMD_LIST_OK :: t)).
+  { intros t. exact (L_run_call s3 rest h h' t i r0 Hi3 eq_refl A2 Hcall Hcode Hpk Hcl). }
+  (* 4. the list, in the model *)
+  assert (Hf3 : fault s3 = false) by exact F2.
+  assert (H63 : 6 <= length (cbuf s3)) by (change (cbuf s3) with (cbuf s2); lia).
+  pose proof (Lemmas_C19.C19_list_proof D s3 Hf3 H63 Hnames (6 * n + 1) (le_n _)) as HC.
+  cbv zeta in HC.
+  assert (Elines : spec_cmd_list D (fun j => negb (is_command_disable D s3 j)) (nl_chars s3)
+                   = spec_cmd_list D (enabled D s) [ch_LF]).
+  { unfold nl_chars. change (k_cr (k s3)) with (k_cr (k s2)). rewrite cr2.
+    unfold enabled, is_command_disable. change (dis_grp s3) with (dis_grp s2).
+    change (dis_cmd s3) with (dis_cmd s2). rewrite Dc, Dg. reflexivity. }
+  rewrite Elines in HC. change (cbuf s3) with (cbuf s2) in HC. rewrite len2 in HC.
+  set (lines := spec_cmd_list D (enabled D s) [ch_LF]) in *.
+  set (s4 := start_print_cmd_list D s3) in *.
+  destruct (list_run D (6 * n + 1) s4 []) as [out af] eqn:Erun.
+  destruct HC as (Ff & Sf & Wf & HC). rewrite Hfit in HC. destruct HC as [Eout HT].
+  (* 5. the state after the handler call *)
+  assert (E4 : s4 = s3 |> setk_index 0 |> setk_length 0 |> setk_type T_NONE |> setk_state CS_PRINT_CMD).
+  { unfold s4, start_print_cmd_list. destruct (n =? 0) eqn:E; [apply Nat.eqb_eq in E; lia | reflexivity]. }
+  assert (P4 : k_state (k s4) = CS_PRINT_CMD /\ u s4 = u s2 /\ cbuf s4 = cbuf s2 /\ mem s4 = mem s2 /\
+               k_cr (k s4) = k_cr (k s2) /\ k_hold (k s4) = k_hold (k s2)).
+  { rewrite E4. repeat split; reflexivity. }
+  destruct P4 as (st4 & u4 & cb4 & m4 & cr4 & ho4).
+  assert (Hi4 : idle s4) by (apply (Lemmas_C02e.idle_of_u s2); assumption).
+  (* 6. the list, as service calls *)
+  destruct (L_list_osteps (length (cbuf s)) rest (6 * n + 1) s4 s4 [] out af lines (L_R_refl s4) Hi4)
+    as (c2 & bf & O3 & Rf & (fu & fm & fcr & fho & flen) & Gf).
+  { rewrite cb4. exact len2. }
+  { apply L_G_not. rewrite st4. discriminate. }
+  { exact Erun. }
+  { exact Sf. }
+  { exact Eout. }
+  { exact Hfit. }
+  pose proof (L_R_same _ _ Rf) as Sfb.
+  assert (Sb : k_state (k bf) = CS_FLUSH_WAIT) by (rewrite <- (ls_state _ _ Sfb); exact Sf).
+  assert (Wb : k_wafter (k bf) = CS_AFTER_RESET) by (rewrite <- (ls_wafter _ _ Sfb); exact Wf).
+  destruct (Gf Sb) as (Pb & [(Hx & _) | (_ & Wsb & Wbb)]); [rewrite Hx in Wb; discriminate|].
+  assert (Hib : idle bf) by (apply (Lemmas_C02e.idle_of_u s4); assumption).
+  assert (Hcrb : k_cr (k bf) = false) by congruence.
+  assert (Hhob : k_hold (k bf) = false) by congruence.
+  assert (HTb : text_of (cbuf bf) = txt_OK) by (rewrite <- (ls_cbuf _ _ Sfb); exact HT).
+  assert (H0b : In 0%N (cbuf bf)).
+  { apply L_text_in0. rewrite HTb, flen, cb4, len2. cbn [length txt_OK]. lia. }
+  (* 7. OK, reset *)
+  destruct (Lemmas_E2E.result_tail D Hmx bf rest txt_OK Hib (conj Sb (conj Pb (conj Wsb Wbb))) Wb Hcrb Hhob H0b HTb)
+    as (s6 & O4 & R1 & R2 & R3 & R4 & _ & _ & _ & R8 & R9 & R10 & _).
+  (* 8. composition *)
+  assert (O12 : osteps (c1 + 1) s ([ch_A; ch_T] ++ name ++ [ch_LF] ++ rest) s3 rest []).
+  { exact (Lemmas_E2E.osteps_trans D _ _ _ _ _ _ _ _ _ _ (Lemmas_E2E.osteps_of_steps D _ _ _ _ _ H1) O2). }
+  pose proof (Lemmas_E2E.osteps_trans D _ _ _ _ _ _ _ _ _ _ O3 O4) as O34.
+  exists ((c1 + 1) + (1 + (c2 + (7 + length txt_OK)))), s6. intros w.
+  destruct (L_compose _ _ _ _ _ _ _ _ h h' i _ O12 Hsvc O34) as (W1 & W2 & W3 & W4 & W5).
+  fold w in W1, W2, W3, W4, W5.
+  split; [exact W1|]. split; [exact W2|]. split; [exact W3|]. split; [exact W4|]. split; [exact W5|].
+  split; [exact R1|]. split; [congruence|]. split.
+  - rewrite R3, <- (ls_fault _ _ Sfb). exact Ff.
+  - split; [congruence|]. split; [exact R8|]. split; [exact R9 | exact R10].
+Qed.
+
+End Lines.
+
+End E2Ec.
+
+(* ================= the final statement ================= *)
+Theorem E2E_list_line_proof : forall D s name rest h h' i c r0,
+  d_mutex D = false -> 0 < ncmds D -> ncmds D <= 4 * length (cbuf s) -> 6 <= length (cbuf s) ->
+  fault s = false ->
+  k_state (k s) = CS_IDLE -> k_cr (k s) = false -> k_implicit (k s) = false -> k_hold (k s) = false ->
+  u_state (u s) = US_IDLE -> u_count (u s) = 0 ->
+  name_ok name = true -> implicit_hit D s (upper name) = false ->
+  resolve (upper name) (enabled D s) (cmds D) = Some i -> nth_error (cmds D) i = Some c ->
+  c_hrun c = true -> c_only_test c = false ->
+  s_call h (HRun i) = (h', r0) -> r_code r0 = RC_PRINT_CMD_LIST_OK -> r_edit r0 = None ->
+  r_pokes r0 = [] -> r_calls r0 = [] ->
+  (forall c', In c' (cmds D) -> ~ In 0%N (c_name c')) ->
+  let lines := spec_cmd_list D (enabled D s) [ch_LF] in
+  forallb (fun l => length l <? length (cbuf s)) lines = true ->
+  let w0 := mkw s ([ch_A; ch_T] ++ name ++ [ch_LF] ++ rest) h [] in
+  exists calls, let w := nsvc D calls w0 in
+    k_state (k (wst w)) = CS_IDLE /\ inq (wio w) = rest /\ whs w = h' /\
+    calls_of (wtr w) = [(HRun i, RC_PRINT_CMD_LIST_OK)] /\
+    mem (wst w) = mem s /\ fault (wst w) = false /\
+    output_of (wtr w) = concat lines ++ [ch_LF] ++ txt_OK ++ [ch_LF].
+Proof.
+  intros D s name rest h h' i c r0 Hmx Hn HL H6 Hf Hst Hcr Himp Hhold Hu1 Hu2 Hok Hh Hres Hc Hrun Hot
+         Hcall Hcode _ Hpk Hcl Hnames lines Hfit w0.
+  destruct (L_list_line_world D Hmx s Hn HL H6 Hf Hst Hcr Himp Hhold (conj Hu1 Hu2)
+              name rest h h' i c r0 Hok Hh Hres Hc Hrun Hot Hcall Hcode Hpk Hcl Hnames Hfit)
+    as (calls & s6 & W).
+  exists calls. intros w. cbv zeta in W. fold w0 in W. fold w in W.
+  destruct W as (W1 & W2 & W3 & W4 & W5 & R1 & R2 & R3 & _).
+  rewrite W1. repeat (split; [assumption|]). exact W5.
+Qed.
+
+Print Assumptions E2E_list_line_proof.
+
+(* ================= a concrete instance (the descriptor and state of Lemmas_E2E.E2E_examples) ================= *)
+Module E2Ec_example.
+Import Lemmas_E2E.E2E_examples.
+(* the run handler of "+XY" (command 1) asks for the command list once, then would answer ERROR *)
+Definition hh : shs :=
+  [((2, 1, 0), [mkHres RC_PRINT_CMD_LIST_OK None [] []; mkHres RC_ERROR None [] []])].
+Definition hh' : shs := [((2, 1, 0), [mkHres RC_ERROR None [] []])].
+(* "AT+xy" LF and one more byte that must stay in the queue *)
+Definition line : list N := [65; 84; 43; 120; 121; 10; 7]%N.
+Definition go_list (calls : nat) := obs (nsvc D0 calls (mkw s0 line hh [])).
+
+(* the hypotheses of E2E_list_line_proof hold for this instance: the theorem is not vacuous *)
+Lemma ex_list_line :
+  exists calls, let w := nsvc D0 calls (mkw s0 line hh []) in
+    k_state (k (wst w)) = CS_IDLE /\ inq (wio w) = [7%N] /\ whs w = hh' /\
+    calls_of (wtr w) = [(HRun 1, RC_PRINT_CMD_LIST_OK)] /\
+    mem (wst w) = m0 /\ fault (wst w) = false /\
+    output_of (wtr w) =
+      concat (spec_cmd_list D0 (enabled D0 s0) [ch_LF]) ++ [ch_LF] ++ txt_OK ++ [ch_LF].
+Proof.
+  apply (E2E_list_line_proof D0 s0 [43; 120; 121]%N [7%N] hh hh' 1 c1
+           (mkHres RC_PRINT_CMD_LIST_OK None [] [])); try reflexivity.
+  - cbn; lia.
+  - cbn; lia.
+  - cbn; lia.
+  - intros c' Hin. cbn in Hin. destruct Hin as [<-|[<-|[]]]; cbn; intuition discriminate.
+Qed.
+End E2Ec_example.
